@@ -502,9 +502,26 @@ func extractStdio(p *pkgs, f *facts) {
 	} else {
 		f.miss = append(f.miss, "copyStream")
 	}
-	// streamsInOrder: `X, err := mux.<op>()` (control) followed by `for i := range S { S[i], err = mux.<op>() }`
-	orderOK := func(fd *ast.FuncDecl, op string) (string, bool) {
+	// streamsInOrder: `X, err := M.<op>()` (control) followed by `for i := range S { S[i], err = M.<op>() }`,
+	// M being the one variable that holds the yamux session (`M, err := yamux.<ctor>(…)`), whatever its name
+	orderOK := func(fd *ast.FuncDecl, ctor, op string) (string, bool) {
 		if fd == nil {
+			return "", false
+		}
+		mux := ""
+		nSess := 0
+		ast.Inspect(fd.Body, func(m ast.Node) bool {
+			if as, ok := m.(*ast.AssignStmt); ok && len(as.Rhs) == 1 && len(as.Lhs) >= 1 {
+				if c, ok := as.Rhs[0].(*ast.CallExpr); ok && exprString(c.Fun) == "yamux."+ctor {
+					if id, ok := as.Lhs[0].(*ast.Ident); ok {
+						mux = id.Name
+						nSess++
+					}
+				}
+			}
+			return true
+		})
+		if nSess != 1 || mux == "_" {
 			return "", false
 		}
 		first := token.NoPos
@@ -514,7 +531,7 @@ func extractStdio(p *pkgs, f *facts) {
 		ast.Inspect(fd.Body, func(m ast.Node) bool {
 			switch x := m.(type) {
 			case *ast.CallExpr:
-				if exprString(x.Fun) == "mux."+op {
+				if exprString(x.Fun) == mux+"."+op {
 					nCalls++
 					if first == token.NoPos {
 						first = x.Pos()
@@ -528,7 +545,7 @@ func extractStdio(p *pkgs, f *facts) {
 				s := exprString(x.X)
 				for _, st := range x.Body.List {
 					if as, ok := st.(*ast.AssignStmt); ok && len(as.Lhs) >= 1 && len(as.Rhs) == 1 &&
-						exprString(as.Lhs[0]) == s+"["+k+"]" && exprString(as.Rhs[0]) == "mux."+op+"()" {
+						exprString(as.Lhs[0]) == s+"["+k+"]" && exprString(as.Rhs[0]) == mux+"."+op+"()" {
 						slice, loopPos = s, x.Pos()
 					}
 				}
@@ -550,7 +567,7 @@ func extractStdio(p *pkgs, f *facts) {
 	rsrvFields := serveFieldStreams(p, "RPCServer")
 	if sc := p.fn("RPCServer", "ServeConn"); sc != nil && len(sc.Recv.List[0].Names) == 1 {
 		recv := sc.Recv.List[0].Names[0].Name
-		slice, ok := orderOK(sc, "Accept")
+		slice, ok := orderOK(sc, "Server", "Accept")
 		seen := map[string]int{}
 		for _, c := range calls(sc.Body, "copyStream", false) {
 			if len(c.Args) != 3 {
@@ -577,7 +594,7 @@ func extractStdio(p *pkgs, f *facts) {
 	}
 	rpcCli := map[string]int{"out": unkCli, "err": unkCli}
 	if nc := p.fn("", "NewRPCClient"); nc != nil {
-		slice, ok := orderOK(nc, "Open")
+		slice, ok := orderOK(nc, "Client", "Open")
 		fieldIdx := map[string]int{}
 		for field, v := range literalFields(nc.Body, "RPCClient") {
 			if i := idxOf(v, slice); i >= 0 {
